@@ -1289,7 +1289,17 @@ class RpcServer:
                         # Resolve SHM pointer on input batch
                         input_batch, resolved_cm, release_fn = resolve_shm_batch(input_batch, resolved_cm, shm)
 
-                        input_batch = _coerce_input_batch(input_batch, input_schema)
+                        try:
+                            input_batch = _coerce_input_batch(input_batch, input_schema)
+                        except Exception:
+                            # The region is resolved but its release handle has not
+                            # reached ``prev_input`` yet, so the ``finally`` below
+                            # cannot see it: release it here or nobody ever will
+                            # (a region holding a batch of another schema would
+                            # stay allocated for the life of the segment).
+                            if release_fn is not None:
+                                release_fn()
+                            raise
 
                         ab_in = AnnotatedBatch(batch=input_batch, custom_metadata=resolved_cm, _release_fn=release_fn)
                         if prev_input is not None:
